@@ -5,6 +5,7 @@ import ddgen
 from checks import ddcommon
 from checks import alloccommon
 from checks import arcslabcommon
+from checks import termcommon
 
 META = {
     "title": "exact reference counts and garbage collection",
@@ -25,7 +26,11 @@ META["level_note"] += " Node store of the pointer-based manager (package ARCSLAB
 
 # package STOREREF (node store of the index-based manager = allocator x payloads / counts): coq/Mgr/IndexStore*.v, theorems C05_index_store_*
 META["level_text"] += " Node store of the index-based manager (package STOREREF, C05_index_store_*, 4 theorems; coq/Mgr/IndexStore.v = ALLOC's slot allocator x (payload, stored count) per node slot x the edge values that exist): in every state reachable from a new manager under any interleaving of add_node / clone_edge / drop_edge / removals (collector, try_remove_node) / allocator-internal actions of any threads (inside drop_edge's assumption) a slot has a payload iff the allocator counts it as a node, its stored count = edge values held by clients (table entry, thread-local edges, Functions) + child edges stored in nodes, never 0, nothing points to a slot without node, every child edge is held by a live node (index_store_counts, _counts_reachable, _step_inv); the refinement to the abstract store and the OutOfMemory theorems are under C20_index_*."
-META["level_note"] += " Package STOREREF: proof-only (not extracted); its allocator component is the replayed ALLOC model, payloads are opaque numbers + child edge variables."
+META["level_note"] += " Package STOREREF: proof-only (not extracted); its allocator component is the replayed ALLOC model, payloads are opaque numbers + child edge variables."# package C07t (trace replay for the dynamic terminal manager): coq/Mgr/ConcTermLog.v, theorems C07_term_log_* of coq/Props/C07.v, stage checks/termcommon.py
+META["technique"] += "; trace replay for the dynamic terminal manager (package C07t): the cfg(oxidd_verif) hooks inside terminal_manager/dynamic.rs log every get_edge (found / new / out of memory, with the value's hash), every reference count increment and decrement of a terminal, the terminal collection (begin, removed ids, end) and every iterator item for whole MTBDD<I64> / MTBDD<F64> histories; the log is replayed from the new manager on by the extracted log-level model coq/Mgr/ConcTermLog.v (projection of the interleaving model coq/Mgr/ConcTerm.v, proved to accept the log of every behaviour of that model)"
+META["level_text"] += " Terminal manager replay (package C07t; theorems C07_term_log_* in coq/Props/C07.v, stage checks/termcommon.py): the replay ystep accepts the log of every action and every schedule of the interleaving model from a new manager of any capacity (log_sim, log_trace_sim, log_reachable_accepted), keeps ids and values pairwise distinct and the free chain disjoint (log_inv, log_run_inv), accepts a removal only for a stored terminal without counted edge in the sweep phase, a `found` only for the id that holds the value, a new id only if it heads the free chain, is not in use and the value is not stored, a decrement or an unannounced increment only with a counted edge (log_free, log_found, log_new, log_retain, log_release); a replayed table that passes the snapshot comparison forms, with the handles and child edges of the snapshot as tokens, a state satisfying the full invariant XInv (log_match_lift). Tie: 46 (thorough 340) sequential histories over I64 / F64 terminals incl. managers with 3..12 terminal slots: every logged event must be accepted by the extracted ystep (a removal of a terminal with a counted edge, a `found` of a collected slot, a new id that is in use, a hit on an entry naming a collected terminal, an iterator item or hit without its increment = violation), and after EVERY operation the replayed table must equal the lifted snapshot: same ids, replayed count (logged increments - decrements) = handles + child edges of stored nodes, slot |-> value consistent with slot |-> hash."
+META["level_note"] += " Terminal manager replay (package C07t): the replayed reference counts are the logged fetch_add / fetch_sub events (the counters themselves are not readable through the public API); terminal values are represented by the FxHasher hash the hook reports; the hooks are trusted."
+
 ALLOWED_AXIOMS = ()
 
 
@@ -158,10 +163,13 @@ def run(ctx):
     alloc_cov = alloccommon.run_stage(ctx)
     # package ARCSLAB: the node store of the pointer-based manager (crate arcslab driven directly, extracted model coq/Tbl/ArcSlab.v)
     slab_cov = arcslabcommon.run_stage(ctx)
+    # package C07t: the terminal manager replay stage (hooks build, terminal events replayed on the extracted model coq/Mgr/ConcTermLog.v)
+    term_cov = termcommon.run_stage(ctx)
     ddcommon.run_dd(
         ctx, ["C05"], cases, proofs=False,
         extra_cov={"gc_model_cases_ok": ok_s, "gc_model_cases_bad": len(bad_s), "alloc_stage": alloc_cov, "alloc_stage_rule": alloccommon.RULE,
-                   "arcslab_stage": slab_cov, "arcslab_stage_rule": arcslabcommon.RULE},
+                   "arcslab_stage": slab_cov, "arcslab_stage_rule": arcslabcommon.RULE,
+                   "term_stage": term_cov, "term_stage_rule": termcommon.RULE},
         rule="MTBDD terminals: histories over I64 and F64 terminals with a snapshot after every op (model invariant on every lifted snapshot; every gc() and constant() replayed on the extracted terminal-manager model); managers with 3..12 terminal slots framed by the terminal capacity probe, constants re-created right after collections, gc before every op in a fifth of them; large managers (2-3 allocation chunks; thorough 2-5): sessions that create up to 1200 nodes, drop them and collect inside one manager session, then a capacity probe that fills the store completely; MTBDD histories (arithmetic, ite, restrict, constants; gc; final drop all + gc: no inner node and no terminal left, after every gc no unreferenced terminal survives); per kind (bdd, bcdd, zbdd): random histories (apply, quantification, substitution, clone, drop, drop on another thread, gc, add_vars, set_var_order) with a snapshot and the reference-count audit after every op and a final 'drop all; gc; snapshot'; small-capacity managers (120..500 nodes, automatic collection at the high-water mark, failing operations) framed by the capacity probe; tdd: 36 (thorough 300) random histories (constants, variables, not, 8 connectives, ite, cofactors, clone, drop, drop on another thread, gc, add_vars, set_var_order; 1 or 4 workers) with the generic audit AND the ternary audit td_rc_b after every op, no unreferenced node after gc, final 'drop all; gc; snapshot' = empty store; 24 (thorough 200) stores of 6..200 nodes framed by the ternary capacity probe T3FILL (single-node functions, all alive, until out-of-memory: every slot in use; per variable the 12 nodes with terminal children that a connective makes of x and the constant u, then nodes x0 op g at level 0), failing operations in between. non-trivial = case with >= 3 ops",
         allowed_axioms=ALLOWED_AXIOMS)
 
@@ -172,6 +180,8 @@ def replay(ctx, path):
         return alloccommon.replay(ctx, json.load(open(path)))
     if json.load(open(path)).get("driver") == "arcslab":
         return arcslabcommon.replay(ctx, json.load(open(path)))
+    if json.load(open(path)).get("driver") == "term":
+        return termcommon.replay(ctx, json.load(open(path)))
     if "--c05s" in json.load(open(path)).get("drv_args", []):
         with _c05s_driver():
             ddcommon.replay_dd(ctx, path)
